@@ -258,7 +258,7 @@ func H17_acs() {
 
 // H17_mb: the real double-byte legacy encoders (EUC-KR, EUC-JP, Shift_JIS, GBK, Big5) on
 // every rune of a 256-rune window of the BMP (quick: six representative windows; thorough:
-// all 256): the cell is written as exactly what the encoder gives for the rune, or - when
+// all 248 windows outside the surrogates): the cell is written as exactly what the encoder gives for the rune, or - when
 // the charset cannot represent it - as '?' padded to the cell's width; never as raw UTF-8
 // or an encoder substitution byte.  CanDisplay agrees.  (The encoder applied directly to the
 // rune is the reference; the x/text tables themselves are not judged.)
@@ -267,7 +267,11 @@ func H17_mb() {
 	vsymNote("charset", cs.name)
 	var base int
 	if vsymParam("allwins", 0) == 1 {
-		base = vsymChoice("runewin", 256) * 256
+		w := vsymChoice("runewin", 248)
+		if w >= 0xd8 {
+			w += 8 // no window of surrogates
+		}
+		base = w * 256
 	} else {
 		base = []int{0x0000, 0x0400, 0x3000, 0x4e00, 0xac00, 0xff00}[vsymChoice("runewin", 6)]
 	}
